@@ -27,6 +27,7 @@ class Scope:
         self.counter = itertools.count()
         self.globals_decl = []
         self.nonlocals_decl = []
+        self.allow_nested = True    # False inside a closure that rebinds an enclosing name through `nonlocal` (shape of KF-D18)
 
     def fresh(self, tag="v"):
         return f"{self.prefix}{tag}{next(self.counter)}"
@@ -36,6 +37,7 @@ class Scope:
         s.ints = list(self.ints); s.lists = list(self.lists); s.funcs = list(self.funcs); s.objs = list(self.objs)
         s.assignable = list(self.assignable); s.loop = self.loop; s.counter = self.counter
         s.globals_decl = self.globals_decl; s.nonlocals_decl = self.nonlocals_decl
+        s.allow_nested = self.allow_nested
         return s
 
 
@@ -209,6 +211,8 @@ class ProgGen:
             kinds += ["return"] * 2
         k = r.choice(kinds)
         if depth <= 0 and k in ("if", "for", "while", "def", "class", "closure"):
+            k = "print"
+        if not sc.allow_nested and k in ("def", "class", "closure"):
             k = "print"
         if k == "assign":
             t, new = self.target_int(sc)
@@ -537,6 +541,7 @@ class ProgGen:
         fs = Scope("function", prefix, parent=sc)
         fs.ints = [f"{prefix}a", cell] + [v for v in sc.ints if v != cell][:3]
         fs.assignable = [f"{prefix}a"]
+        fs.allow_nested = False
         if r.random() < 0.6:
             self.features.add("nonlocal")
             L.append(f"{pad}    nonlocal {cell}")
